@@ -258,7 +258,18 @@ func (g *docGen) rectPolyCoords() string {
 	f := func(x, y int) string {
 		return "[" + strconv.FormatFloat(float64(x)/16, 'f', -1, 64) + "," + strconv.FormatFloat(float64(y)/16, 'f', -1, 64) + "]"
 	}
-	return "[[" + strings.Join([]string{f(a, b), f(a+w, b), f(a+w, b+h), f(a, b+h), f(a, b)}, ",") + "]]"
+	c := []ipt{{a, b}, {a + w, b}, {a + w, b + h}, {a, b + h}}
+	if g.r.coin(0.4) {
+		// almost a rectangle: one coordinate of one corner is off (must NOT be replaced by a Rect)
+		k := g.r.intn(4)
+		d := g.r.pick([]int{-3, -1, 1, 2})
+		if g.r.coin(0.5) {
+			c[k].x += d
+		} else {
+			c[k].y += d
+		}
+	}
+	return "[[" + strings.Join([]string{f(c[0].x, c[0].y), f(c[1].x, c[1].y), f(c[2].x, c[2].y), f(c[3].x, c[3].y), f(c[0].x, c[0].y)}, ",") + "]]"
 }
 
 func (g *docGen) geometry(depth int) string {
